@@ -59,3 +59,98 @@ theorem eq_fin_iff (n1 m1 e1 n2 m2 e2) :
 
 end Rules.F64
 #print axioms Rules.F64.lt_fin_iff
+
+/-! ### every non-NaN binary64 value as a point of the extended rationals -/
+namespace Rules.F64
+open Rules
+
+/-- ℚ with a least (−Inf) and a greatest (+Inf) element -/
+abbrev EQ := WithBot (WithTop ℚ)
+
+/-- the mathematical value of a non-NaN binary64 (NaN is sent to 0; every statement excludes it) -/
+def val : F64 → EQ
+  | .nan => ((0 : ℚ) : WithTop ℚ)
+  | .inf true => ⊥
+  | .inf false => ((⊤ : WithTop ℚ) : WithBot (WithTop ℚ))
+  | .fin n m e => ((finVal n m e : ℚ) : WithTop ℚ)
+
+theorem lt_iff (a b : F64) (ha : a.isNaN = false) (hb : b.isNaN = false) : lt a b = true ↔ val a < val b := by
+  cases a with
+  | nan => simp [isNaN] at ha
+  | inf na =>
+    cases b with
+    | nan => simp [isNaN] at hb
+    | inf nb => cases na <;> cases nb <;> simp [lt, val]
+    | fin nb mb eb => cases na <;> simp [lt, val, WithBot.bot_lt_coe]
+  | fin na ma ea =>
+    cases b with
+    | nan => simp [isNaN] at hb
+    | inf nb =>
+      cases nb with
+      | true => simp [lt, val]
+      | false =>
+        simp only [lt, val, Bool.not_false, true_iff]
+        exact WithBot.coe_lt_coe.2 (WithTop.coe_lt_top _)
+    | fin nb mb eb =>
+      rw [lt_fin_iff]
+      simp [val]
+
+theorem eq_iff (a b : F64) (ha : a.isNaN = false) (hb : b.isNaN = false) : eq a b = true ↔ val a = val b := by
+  cases a with
+  | nan => simp [isNaN] at ha
+  | inf na =>
+    cases b with
+    | nan => simp [isNaN] at hb
+    | inf nb => cases na <;> cases nb <;> simp [eq, val]
+    | fin nb mb eb => cases na <;> simp [eq, val]
+  | fin na ma ea =>
+    cases b with
+    | nan => simp [isNaN] at hb
+    | inf nb => cases nb <;> simp [eq, val]
+    | fin nb mb eb =>
+      rw [eq_fin_iff]
+      simp [val]
+
+/-- NaN is unordered and unequal to everything -/
+theorem nan_unordered (a : F64) :
+    lt .nan a = false ∧ lt a .nan = false ∧ eq .nan a = false ∧ eq a .nan = false := by
+  cases a <;> simp [lt, eq]
+
+/-- `float64(n)` is exact for |n| ≤ 2^53 -/
+theorem val_ofInt (n : Int) (h : n.natAbs ≤ 2 ^ 53) : val (ofInt n) = (((n : ℚ) : WithTop ℚ) : EQ) := by
+  unfold ofInt
+  simp only [h, if_true, val, finVal, zpow_zero, mul_one]
+  by_cases hn : n < 0
+  · simp only [hn, decide_true, if_true]
+    have : ((n.natAbs : ℤ) : ℚ) = -(n : ℚ) := by
+      have := Int.ofNat_natAbs_of_nonpos (le_of_lt hn)
+      rw [this]; push_cast; ring
+    norm_cast at this ⊢
+    simp [this]
+  · simp only [hn, decide_false, Bool.false_eq_true, if_false]
+    have : ((n.natAbs : ℤ) : ℚ) = (n : ℚ) := by
+      rw [Int.natAbs_of_nonneg (not_lt.1 hn)]
+    norm_cast at this ⊢
+    simp [this]
+
+theorem mkFin_not_nan (neg : Bool) (m : Nat) (e : Int) (f : F64) (h : mkFin neg m e = some f) : f.isNaN = false := by
+  unfold mkFin at h
+  split at h
+  · cases h
+  · cases h; rfl
+
+theorem roundRat_not_nan (neg : Bool) (n d : Nat) (f : F64) (h : roundRat neg n d = some f) : f.isNaN = false := by
+  unfold roundRat at h
+  split at h
+  · cases h; rfl
+  · exact mkFin_not_nan _ _ _ _ h
+
+theorem ofInt_not_nan (n : Int) : (ofInt n).isNaN = false := by
+  unfold ofInt
+  split
+  · rfl
+  · split
+    · rename_i f hf; exact roundRat_not_nan _ _ _ _ hf
+    · rfl
+
+end Rules.F64
